@@ -39,7 +39,10 @@ TRUSTED_BASE = [
     "list.sort/sorted incl. reverse=True, dict lookup and insertion order, ==/hash consistency on keys, "
     "refcount-driven death of weak references, csv.reader, str.lower/strip, int()/float() parsing, f-string formatting",
     "theorems are about the Lean model; the model is tied to the code only on the inputs the correspondence run "
-    "executed (counts below) and through the constants regenerated from the source on this run",
+    "executed (counts below), through the constants regenerated from the source on this run, and — where this evidence lists a "
+    "translation tie as 'holds' — through the statement-by-statement translation of the named functions (harness/py2lean.py and "
+    "lean/Serif/Gen/PySupport.lean are then part of the trusted base; what each translation abstracts is stated in the docstrings of "
+    "the generated lean/Serif/Gen/Translated*.lean files)",
 ]
 
 
